@@ -114,6 +114,11 @@ def applyDirs (h ph : Heap) (c : Ctx) (stream : It) : List Dir → Except Err (C
       | none => .error .unmodelled
       | some body =>
         .ok ({ c with frames := setBottom c.frames name (.macro ⟨name, params, body, rest⟩) }, .lst [])
+    | .pyMatch name once =>
+      -- MatchDirective.__call__: `ctxt._match_templates.append((test, path, list(stream), hints, ns, directives))`
+      match remaining h ph stream with
+      | none => .error .unmodelled
+      | some body => .ok ({ c with mts := c.mts ++ [⟨name, body, once, rest⟩] }, .lst [])
     | _ => .error .unmodelled
 
 /-! ## directive generators -/
@@ -404,6 +409,7 @@ def transEvs (v : Variant) : Nat → Heap → St → List TEv → TRes
 inductive Src where
   | direct (root : Ref) (i : Nat)                                -- `iter(stream)`
   | trans (root : Ref) (i : Nat) (started : Bool) (pend : Nat)   -- the Translator generator over it, suspended
+  | none                                                         -- `_flatten(iterator)`: everything is on the stack
   deriving DecidableEq, Repr, Inhabited
 
 structure SrcRes where
@@ -414,6 +420,7 @@ structure SrcRes where
   deriving Repr, Inhabited
 
 def pullSource (v : Variant) (fuel : Nat) (h : Heap) (st : St) : Src → SrcRes
+  | .none => ⟨h, st, .none, .done⟩
   | .direct root i =>
     match readEvs h st.ph root with
     | none => ⟨h, st, .direct root i, .err .unmodelled⟩
@@ -503,12 +510,140 @@ def flat (v : Variant) : Nat → Heap → St → Src → List It → FlatRes
           | .error er => ⟨h1, st1, src1, stack1, .err er⟩
           | .ok (c2, it2) => flat v fuel h1 { st1 with ctx := c2 } src1 (it2 :: stack1)
 
+/-! ## the `_match` filter (one-step element-name paths, content not selected) -/
+
+/-- the first match template with index in `[start, end)` that tests true on a START with this local name -/
+def findMatchFrom (name : Str) (start : Nat) (end_ : Option Nat) : Nat → List MatchT → Option (Nat × MatchT)
+  | _, [] => none
+  | idx, mt :: rest =>
+    let inRange := start ≤ idx && (match end_ with | some e => idx < e | none => true)
+    if inRange && mt.name = name then some (idx, mt) else findMatchFrom name start end_ (idx + 1) rest
+
+def findMatch (mts : List MatchT) (start : Nat) (end_ : Option Nat) (name : Str) : Option (Nat × MatchT) :=
+  findMatchFrom name start end_ 0 mts
+
+/-- `if 'match_once' in hints: del match_templates[idx]; idx -= 1`; returns the list and `idx + 1` -/
+def afterOnce (mts : List MatchT) (idx : Nat) (mt : MatchT) : List MatchT × Nat :=
+  if mt.once then (mts.eraseIdx idx, idx) else (mts, idx + 1)
+
+structure CRes where
+  h : Heap
+  st : St
+  src : Src
+  stack : List It
+  err : Option Err
+  deriving Repr, Inhabited
+
+mutual
+  /-- `content = list(self._include(chain([event], inner, tail), ctxt))`: the matched element is pulled out
+      of this `_flatten` up to its END (`_strip`), through `self._match(inner, start, end=pre_end)`; bodies of
+      match templates that fire inside are rendered on the spot.  Nobody selects the content: only the
+      effects of producing it remain. -/
+  def consume (v : Variant) : Nat → Heap → St → Src → List It → Nat → Nat → Nat → CRes
+    | 0, h, st, src, stack, _, _, _ => ⟨h, st, src, stack, some .fuel⟩
+    | fuel + 1, h, st, src, stack, start, preEnd, depth =>
+      if depth = 0 then ⟨h, st, src, stack, none⟩
+      else
+        let r := flat v fuel h st src stack
+        match r.out with
+        | .done => ⟨r.h, r.st, r.src, r.stack, some .stopIter⟩      -- `next(stream)` inside `_strip`
+        | .err e => ⟨r.h, r.st, r.src, r.stack, some e⟩
+        | .incl _ _ => ⟨r.h, r.st, r.src, r.stack, some .unmodelled⟩
+        | .ev (.end_ _) => consume v fuel r.h r.st r.src r.stack start preEnd (depth - 1)
+        | .ev (.start tag _) =>
+          match (if preEnd > 0 then findMatch r.st.ctx.mts start (some preEnd) tag.loc else none) with
+          | none => consume v fuel r.h r.st r.src r.stack start preEnd (depth + 1)
+          | some (idx, mt) =>
+            let (mts', pe2) := afterOnce r.st.ctx.mts idx mt
+            let st1 : St := { r.st with ctx := { r.st.ctx with mts := mts' } }
+            let c := consume v fuel r.h st1 r.src r.stack start pe2 1
+            match c.err with
+            | some e => ⟨c.h, c.st, c.src, c.stack, some e⟩
+            | none =>
+              match applyDirs c.h c.st.ph c.st.ctx (.lst mt.body) mt.rest with
+              | .error e => ⟨c.h, c.st, c.src, c.stack, some e⟩
+              | .ok (c2, it) =>
+                let b := runBody v fuel c.h { c.st with ctx := c2 } [it] pe2
+                match b.err with
+                | some e => ⟨b.h, b.st, c.src, c.stack, some e⟩
+                | none => consume v fuel b.h b.st c.src c.stack start preEnd depth
+        | .ev _ => consume v fuel r.h r.st r.src r.stack start preEnd depth
+
+  /-- `self._match(self._flatten(template, …), ctxt, start=idx+1)` driven to its end, events dropped -/
+  def runBody (v : Variant) : Nat → Heap → St → List It → Nat → CRes
+    | 0, h, st, stack, _ => ⟨h, st, .none, stack, some .fuel⟩
+    | fuel + 1, h, st, stack, start =>
+      let r := flat v fuel h st .none stack
+      match r.out with
+      | .done => ⟨r.h, r.st, .none, r.stack, none⟩
+      | .err e => ⟨r.h, r.st, .none, r.stack, some e⟩
+      | .incl _ _ => ⟨r.h, r.st, .none, r.stack, some .unmodelled⟩
+      | .ev (.start tag _) =>
+        match findMatch r.st.ctx.mts start none tag.loc with
+        | none => runBody v fuel r.h r.st r.stack start
+        | some (idx, mt) =>
+          let (mts', pe2) := afterOnce r.st.ctx.mts idx mt
+          let st1 : St := { r.st with ctx := { r.st.ctx with mts := mts' } }
+          let c := consume v fuel r.h st1 .none r.stack start pe2 1
+          match c.err with
+          | some e => ⟨c.h, c.st, .none, c.stack, some e⟩
+          | none =>
+            match applyDirs c.h c.st.ph c.st.ctx (.lst mt.body) mt.rest with
+            | .error e => ⟨c.h, c.st, .none, c.stack, some e⟩
+            | .ok (c2, it) =>
+              let b := runBody v fuel c.h { c.st with ctx := c2 } [it] pe2
+              match b.err with
+              | some e => ⟨b.h, b.st, .none, c.stack, some e⟩
+              | none => runBody v fuel b.h b.st c.stack start
+      | .ev _ => runBody v fuel r.h r.st r.stack start
+end
+
+inductive MOut where
+  | ev (e : Event)
+  | done
+  | err (e : Err)
+  | incl (t : Option Nat) (fb : Option Ref)
+  | matched (body : It) (start : Nat)     -- a match template fired: its body is rendered next, matched from `start`
+  deriving Repr, Inhabited
+
+structure MRes where
+  h : Heap
+  st : St
+  src : Src
+  stack : List It
+  out : MOut
+  deriving Repr, Inhabited
+
+/-- one `next()` of `_match(stream, ctxt, start)` over this frame's `_flatten` -/
+def mpull (v : Variant) (fuel : Nat) (h : Heap) (st : St) (src : Src) (stack : List It) (start : Nat) : MRes :=
+  let r := flat v fuel h st src stack
+  match r.out with
+  | .done => ⟨r.h, r.st, r.src, r.stack, .done⟩
+  | .err e => ⟨r.h, r.st, r.src, r.stack, .err e⟩
+  | .incl t fb => ⟨r.h, r.st, r.src, r.stack, .incl t fb⟩
+  | .ev (.start tag attrs) =>
+    match findMatch r.st.ctx.mts start none tag.loc with
+    | none => ⟨r.h, r.st, r.src, r.stack, .ev (.start tag attrs)⟩
+    | some (idx, mt) =>
+      let (mts', pe) := afterOnce r.st.ctx.mts idx mt
+      let st1 : St := { r.st with ctx := { r.st.ctx with mts := mts' } }
+      let c := consume v fuel r.h st1 r.src r.stack start pe 1
+      match c.err with
+      | some e => ⟨c.h, c.st, c.src, c.stack, .err e⟩
+      | none =>
+        match applyDirs c.h c.st.ph c.st.ctx (.lst mt.body) mt.rest with
+        | .error e => ⟨c.h, c.st, c.src, c.stack, .err e⟩
+        | .ok (c2, it) => ⟨c.h, { c.st with ctx := c2 }, c.src, c.stack, .matched it pe⟩
+  | .ev e => ⟨r.h, r.st, r.src, r.stack, .ev e⟩
+
 /-! ## the `_include` filter: one pipeline (filters of a template over a list) per nesting level -/
 
-/-- the suspended generators of one `generate()` / of the filtered fallback: `_flatten` and its source -/
+/-- the suspended generators of one `generate()` / of the filtered fallback / of the body of a match
+    template: `_flatten` with its source, and the `start` of the `_match` over it -/
 structure PFrame where
   src : Src
   stack : List It
+  mstart : Nat := 0
   deriving Repr, Inhabited
 
 def srcOver (translator : Bool) (root : Ref) : Src :=
@@ -536,19 +671,21 @@ def pipe (v : Variant) (translator : Bool) (roots : List Nat) :
   | 0, h, st, frames, touched => ⟨h, st, frames, touched, .err .fuel⟩
   | _ + 1, h, st, [], touched => ⟨h, st, [], touched, .done⟩
   | fuel + 1, h, st, f :: outer, touched =>
-    let r := flat v fuel h st f.src f.stack
-    let cur : PFrame := ⟨r.src, r.stack⟩
+    let r := mpull v fuel h st f.src f.stack f.mstart
+    let cur : PFrame := ⟨r.src, r.stack, f.mstart⟩
     match r.out with
     | .ev e => ⟨r.h, r.st, cur :: outer, touched, .ev e⟩
     | .err e => ⟨r.h, r.st, cur :: outer, touched, .err e⟩
-    | .done => pipe v translator roots fuel r.h r.st outer touched     -- back in the includer's `for event in …`
+    | .done => pipe v translator roots fuel r.h r.st outer touched     -- back in the enclosing generator's loop
+    | .matched it start =>
+      pipe v translator roots fuel r.h r.st (⟨.none, [it], start⟩ :: cur :: outer) touched
     | .incl (some t) _ =>
       match roots[t]? with
       | none => ⟨r.h, r.st, cur :: outer, touched, .err .unmodelled⟩
       | some root =>
-        pipe v translator roots fuel r.h r.st (⟨srcOver translator (.tmpl root), []⟩ :: cur :: outer) (touched ++ [t])
+        pipe v translator roots fuel r.h r.st (⟨srcOver translator (.tmpl root), [], 0⟩ :: cur :: outer) (touched ++ [t])
     | .incl none (some fb) =>
-      pipe v translator roots fuel r.h r.st (⟨srcOver translator fb, []⟩ :: cur :: outer) touched
+      pipe v translator roots fuel r.h r.st (⟨srcOver translator fb, [], 0⟩ :: cur :: outer) touched
     | .incl none none =>
       -- TemplateNotFound; inside an included template the includer's `except` would see it (C11's business)
       ⟨r.h, r.st, cur :: outer, touched, .err (if outer.isEmpty then .notFound else .unmodelled)⟩
@@ -564,7 +701,7 @@ structure Render where
 
 /-- `Template.generate(**data)` on a prepared template: nothing runs before the first `next()` -/
 def Render.new (translator : Bool) (root : Nat) (data : Frame) : Render :=
-  { ctx := Ctx.new data, ph := [], frames := [⟨srcOver translator (.tmpl root), []⟩], live := true }
+  { ctx := Ctx.new data, ph := [], frames := [⟨srcOver translator (.tmpl root), [], 0⟩], live := true }
 
 structure StepRes where
   h : Heap
